@@ -138,6 +138,13 @@ class PrintReader:
         k = n.get("k")
         if k == "break":
             return True
+        if k == "return":
+            # in print itself `return os;` after the switch is not reached from a case; inside an inlined helper a
+            # return ends the helper: its value is the stream expression that was written
+            e_ = n.get("e")
+            if isinstance(e_, dict) and not (e_.get("k") == "ref"):
+                self.expr(e_, out)
+            return True
         if k == "block":
             for s in n.get("s", []):
                 if self.stmt(s, out):
@@ -203,7 +210,9 @@ class PrintReader:
             c = short(n["c"])
             if n.get("else") is not None and all(x.get("k") == "assert" for x in walk(n["else"]) if x.get("k") in ("assert", "call")):
                 return self.stmt(n["then"], out)
-            if "get_size" in c and n.get("else") is None and getattr(self, "decisions", None) is None:
+            at_ = self.atom_of(n["c"]) if hasattr(self, "locals") else None
+            if ("get_size" in c or (at_ is not None and at_[0][0] == "size")) and n.get("else") is None and \
+                    getattr(self, "decisions", None) is None:
                 # optional argument list: handled as varargs
                 self.varargs = True
                 return False
@@ -213,6 +222,26 @@ class PrintReader:
             if v is False:
                 return self.stmt(n.get("else"), out)
             raise _Opaque("conditional output (%s)" % c[:40])
+        if k == "for" and self._unroll(n, out):
+            return False
+        if k == "rangefor" and isinstance(n.get("var"), dict) and isinstance(n.get("range"), dict):
+            # `for (uint32_t at : {0u, 4u})`: the body once per listed value
+            rg = n["range"]
+            while rg.get("k") in ("stdinitlist", "cast", "paren") and isinstance(rg.get("e"), dict):
+                rg = rg["e"]
+            elems = rg.get("e") if rg.get("k") == "initlist" and isinstance(rg.get("e"), list) else None
+            vals_ = [self._int_value(x) for x in elems] if elems else None
+            if vals_ and all(isinstance(v_, int) and not isinstance(v_, bool) for v_ in vals_) and len(vals_) <= 8:
+                saved_l = self.locals
+                try:
+                    for v_ in vals_:
+                        self.locals = dict(saved_l)
+                        self.locals[n["var"].get("name")] = v_
+                        if self.stmt(n.get("body"), out):
+                            break
+                finally:
+                    self.locals = saved_l
+                return False
         if k in ("for", "while", "rangefor"):
             self.varargs = True
             return False
@@ -232,6 +261,11 @@ class PrintReader:
             if j.get("k") in ("bool", "int"):
                 self.locals[v.get("name")] = bool(j["v"]) if j["k"] == "bool" else int(j["v"])
                 continue
+            if (v.get("ct") or v.get("t") or "").replace("const ", "") in ("bool", "_Bool"):
+                b_ = self.kind_cond(j)          # `const bool is_box = data->kind == PROBA_BOX;`
+                if b_ is not None:
+                    self.locals[v.get("name")] = bool(b_)
+                    continue
             pth = self.child_path(j)
             if pth is not None:
                 self.env = dict(getattr(self, "env", None) or {})
@@ -291,6 +325,22 @@ class PrintReader:
                         return ("size", ">", n_), False
                     if op == "<":
                         return ("size", ">", n_ - 1), False
+        if k == "bin" and c.get("op") in flip and hasattr(self, "locals"):
+            # an integer against get_size() - k (possibly through locals and parameters): a question about the arity
+            a_, b_ = self._int_value(c["lhs"]), self._int_value(c["rhs"])
+            op = c["op"]
+            if isinstance(b_, int) and not isinstance(b_, bool) and isinstance(a_, tuple):
+                a_, b_, op = b_, a_, flip[op]
+            if isinstance(a_, int) and not isinstance(a_, bool) and isinstance(b_, tuple):
+                n_ = a_ + b_[1]            # a OP size - k   <=>   size (flip OP) a + k
+                if op == "<":
+                    return ("size", ">", n_), True
+                if op == "<=":
+                    return ("size", ">", n_ - 1), True
+                if op == ">=":
+                    return ("size", ">", n_), False
+                if op == ">":
+                    return ("size", ">", n_ - 1), False
         if k == "call" and c.get("name") == "get_value" and c.get("recv") is not None and not c.get("args"):
             pth = self.node_path(c["recv"])
             if pth:
@@ -328,6 +378,10 @@ class PrintReader:
             return bool(c["v"])
         if k == "ref" and c.get("dk") == "local" and isinstance(getattr(self, "locals", {}).get(c.get("name")), (bool, int)):
             return bool(self.locals[c["name"]])
+        if k == "bin" and c.get("op") in ("==", "!=", "<", "<=", ">", ">=") and hasattr(self, "locals"):
+            a_, b_ = self._int_value(c["lhs"]), self._int_value(c["rhs"])
+            if isinstance(a_, int) and isinstance(b_, int) and not isinstance(a_, bool) and not isinstance(b_, bool):
+                return {"==": a_ == b_, "!=": a_ != b_, "<": a_ < b_, "<=": a_ <= b_, ">": a_ > b_, ">=": a_ >= b_}[c["op"]]
         if getattr(self, "decisions", None) is not None and not getattr(self, "tree", None):
             if k == "bin" and c.get("op") in ("&&", "||"):
                 a = self.kind_cond(c["lhs"], depth)          # C semantics: the right operand only when needed
@@ -364,6 +418,30 @@ class PrintReader:
                             return True
                     except (IndexError, TypeError, ValueError):
                         pass
+        if k == "call" and c.get("name") == "is" and c.get("args") and c["args"][0].get("dk") == "enumerator" and \
+                getattr(self, "decisions", None) is None:
+            r = c.get("recv") or {}
+            if r.get("k") == "call" and r.get("name") == "get_type" and r.get("recv") is not None:
+                sv = self._symbol_value(r["recv"])
+                if sv is not None:
+                    leaf = sv[1]
+                    if leaf is None:
+                        return None        # get_type() of the empty symbol: the code under analysis must not get here
+                    tk = c["args"][0]["name"]
+                    if tk == "PROCESS_SET":
+                        return self._leaf_name(leaf) == self.PROCESS_SET_LEAF
+                    if tk in self.SPECIAL_TYPE_KINDS:
+                        return False
+        if k == "call" and c.get("ck") == "op" and c.get("op") in ("!=", "==") and getattr(self, "decisions", None) is None:
+            ops = ([c["recv"]] if c.get("recv") is not None else []) + c.get("args", [])
+            if len(ops) == 2:
+                for x, y in ((ops[0], ops[1]), (ops[1], ops[0])):
+                    y0 = y
+                    while isinstance(y0, dict) and y0.get("k") in ("cast", "paren"):
+                        y0 = y0["e"]
+                    sv = self._symbol_value(x)
+                    if sv is not None and isinstance(y0, dict) and y0.get("k") == "construct" and not y0.get("args"):
+                        return (sv[1] is not None) == (c["op"] == "!=")
         if k == "call" and c.get("name") == "is" and c.get("args") and c["args"][0].get("dk") == "enumerator":
             # <identifier node>.get_symbol().get_type().is(T): the leaves of a rendered tree are plain variables
             r = c.get("recv") or {}
@@ -464,10 +542,25 @@ class PrintReader:
         return None
 
     def lit(self, e, olds=("old",)):
-        while e.get("k") == "cast":
+        while e.get("k") in ("cast", "paren"):
             e = e["e"]
         if e.get("k") == "str":
             return e.get("v")
+        if e.get("k") == "ref" and isinstance((getattr(self, "strs", None) or {}).get(e.get("name")), str):
+            return self.strs[e["name"]]
+        if e.get("k") == "call" and e.get("fn") and e.get("recv") is None and \
+                any(a.get("k") == "ref" and a.get("dk") == "enumerator" for a in e.get("args", [])) and \
+                not any(self._is_kind_expr(a) for a in e.get("args", [])):
+            # `get_quantifier_prefix(AG)`: the helper's text for a kind named in the call
+            saved = self.kind
+            try:
+                self.kind = next(a["name"] for a in e["args"] if a.get("k") == "ref" and a.get("dk") == "enumerator")
+                e2 = dict(e)
+                e2["args"] = [({"k": "member", "name": "kind"} if (a.get("k") == "ref" and a.get("dk") == "enumerator") else a)
+                              for a in e["args"]]
+                return self.lit(e2, olds)
+            finally:
+                self.kind = saved
         if e.get("k") == "call" and e.get("fn") and e.get("recv") is None and \
                 any(self._is_kind_expr(a) for a in e.get("args", [])):
             # a helper mapping the kind to its text: `switch (kind) { case PLUS: return " + "; ... }`
@@ -518,9 +611,12 @@ class PrintReader:
         while True:
             while e.get("k") in ("cast", "paren") or (e.get("k") == "construct" and len(e.get("args", [])) == 1):
                 e = e["e"] if e.get("k") != "construct" else e["args"][0]
-            if e.get("k") == "call" and e.get("name") in ("get", "operator[]") and e.get("args") and \
-                    e["args"][-1].get("k") == "int":
-                path.append(e["args"][-1]["v"])
+            idx = None
+            if e.get("k") == "call" and e.get("name") in ("get", "operator[]") and e.get("args"):
+                idx = self._int_value(e["args"][-1]) if hasattr(self, "locals") else \
+                    (e["args"][-1]["v"] if e["args"][-1].get("k") == "int" else None)
+            if isinstance(idx, int) and not isinstance(idx, bool):
+                path.append(idx)
                 r = e.get("recv")
                 if r is None and e.get("name") == "operator[]" and len(e["args"]) == 2:
                     r = e["args"][0]
@@ -557,6 +653,65 @@ class PrintReader:
                           "LOCATION", "LOCATION_EXPR", "BRANCHPOINT", "INSTANCE_LINE", "MESSAGE", "CONDITION", "UPDATE",
                           "LABEL", "RECORD", "ARRAY", "CHANNEL", "CLOCK", "STRING", "DOUBLE"}
 
+    PROCESS_SET_LEAF = "P"          # an IDENTIFIER of this name in a rendered tree names a process set (a partial instance)
+
+    def _symbol_descent(self):
+        """kind -> index of the child expression_t::get_symbol() const descends into, or "leaf" where it returns the
+        node's own symbol; kinds not listed give the empty symbol.  Read from the function's switch."""
+        if not hasattr(self, "_symmap"):
+            m = {}
+            for fn in self.F.fns("UTAP::expression_t::get_symbol"):
+                if fn.get("body") is None or len(fn.get("params", [])) != 0:
+                    continue
+                sws = [x for x in walk(fn["body"]) if x.get("k") == "switch"]
+                if not sws:
+                    continue
+                for labels, stmts in _switch_groups(max(sws, key=lambda z: sum(1 for _ in walk(z)))):
+                    what = None
+                    for x in walk({"k": "block", "s": stmts}):
+                        if x.get("k") == "return" and x.get("e") is not None:
+                            e = x["e"]
+                            while e.get("k") in ("cast", "paren", "construct") and (e.get("e") or e.get("args")):
+                                e = e.get("e") if e.get("k") != "construct" else e["args"][0]
+                            if e.get("k") == "call" and e.get("name") == "get_symbol" and e.get("recv") is not None:
+                                r = e["recv"]
+                                while r.get("k") in ("cast", "paren"):
+                                    r = r["e"]
+                                if r.get("k") == "call" and r.get("name") in ("get", "operator[]") and r.get("args") and \
+                                        r["args"][-1].get("k") == "int":
+                                    what = r["args"][-1]["v"]
+                            elif e.get("k") == "member" and e.get("name") == "symbol":
+                                what = "leaf"
+                            break
+                    for lb in labels:
+                        if lb and lb != "default" and what is not None:
+                            m[lb] = what
+                if m:
+                    break
+            self._symmap = m
+        return self._symmap
+
+    def sym_of(self, pth, depth=0):
+        """the node whose symbol <node at pth>.get_symbol() returns in the tree being printed: a path, or None for the
+        empty symbol"""
+        m = self._symbol_descent()
+        k = self.node_kind(pth)
+        w = m.get(k)
+        if w == "leaf":
+            return pth
+        if isinstance(w, int) and depth < 12:
+            return self.sym_of(tuple(pth) + (w,), depth + 1)
+        return None
+
+    def _leaf_name(self, pth):
+        t = getattr(self, "tree", None)
+        try:
+            for i in pth:
+                t = t[1][i]
+            return t[2] if t is not None else None
+        except (IndexError, TypeError):
+            return None
+
     def eval_predicate(self, call, depth=0):
         """Value of `helper(<node>)` for the tree being printed, where helper is a function of this file that returns
         bool and looks only at kinds along get(i) chains and at the symbol type of identifiers: the body is interpreted
@@ -572,8 +727,25 @@ class PrintReader:
                 continue
             saved = getattr(self, "env", None)
             self.env = {fn["params"][0]["name"]: pth}
+            saved_syms = getattr(self, "symlocals", None)
+            self.symlocals = dict(saved_syms or {})
             try:
                 for st in fn["body"].get("s", []):
+                    if st.get("k") == "decl":
+                        okd = True
+                        for v in st.get("vars", []):
+                            i0 = v.get("init")
+                            while isinstance(i0, dict) and (i0.get("k") in ("cast", "paren") or
+                                                            (i0.get("k") == "construct" and len(i0.get("args", [])) == 1)):
+                                i0 = i0["e"] if i0.get("k") != "construct" else i0["args"][0]
+                            if isinstance(i0, dict) and i0.get("k") == "call" and i0.get("name") == "get_symbol" and \
+                                    i0.get("recv") is not None and self.node_path(i0["recv"]) is not None:
+                                self.symlocals[v.get("name")] = ("sym", self.sym_of(self.node_path(i0["recv"])))
+                            else:
+                                okd = False
+                        if not okd:
+                            return None
+                        continue
                     if st.get("k") == "if" and st.get("else") is None:
                         c = self.kind_cond(st["c"], depth + 1)
                         if c is None:
@@ -589,6 +761,23 @@ class PrintReader:
                     return None
             finally:
                 self.env = saved
+                self.symlocals = saved_syms
+        return None
+
+    def _symbol_value(self, e):
+        """("sym", leaf path or None) for an expression that denotes the symbol of a node of the tree: X.get_symbol(),
+        or a local bound to one inside a predicate helper; None if e is something else"""
+        while isinstance(e, dict) and (e.get("k") in ("cast", "paren") or (e.get("k") == "construct" and len(e.get("args", [])) == 1)):
+            e = e["e"] if e.get("k") != "construct" else e["args"][0]
+        if not isinstance(e, dict):
+            return None
+        if e.get("k") == "ref" and e.get("name") in (getattr(self, "symlocals", None) or {}):
+            return self.symlocals[e["name"]]
+        if e.get("k") == "call" and e.get("name") == "get_symbol" and e.get("recv") is not None and \
+                getattr(self, "decisions", None) is None:
+            pth = self.node_path(e["recv"])
+            if pth is not None:
+                return ("sym", self.sym_of(pth))
         return None
 
     def node_kind(self, path):
@@ -604,6 +793,8 @@ class PrintReader:
         p = self.child_path(e)
         if p is not None and len(p) > 1:
             return p
+        if p is not None and len(p) == 1:
+            return p[0]
         while e.get("k") in ("cast",) or (e.get("k") == "construct" and len(e.get("args", [])) == 1):
             e = e["e"] if e.get("k") == "cast" else e["args"][0]
         if e.get("k") == "call" and e.get("name") == "get" and e.get("args") and e["args"][0].get("k") == "int":
@@ -648,9 +839,106 @@ class PrintReader:
                 return ("value", pth, ty)
         return None
 
+    def _int_value(self, a):
+        """literal int, an int local of known value, or ("size", k) for get_size() - k; None otherwise"""
+        a0 = a
+        while isinstance(a0, dict) and a0.get("k") in ("cast", "paren"):
+            a0 = a0["e"]
+        if not isinstance(a0, dict):
+            return None
+        if a0.get("k") == "int":
+            return int(a0["v"])
+        if a0.get("k") == "ref" and isinstance(self.locals.get(a0.get("name")), (int, tuple)) and \
+                not isinstance(self.locals.get(a0.get("name")), bool):
+            return self.locals[a0["name"]]
+        sz = self._size_term(a0)
+        if sz is not None:
+            return ("size", sz)
+        if a0.get("k") == "bin" and a0.get("op") in ("+", "-"):
+            x, y = self._int_value(a0["lhs"]), self._int_value(a0["rhs"])
+            if isinstance(x, int) and isinstance(y, int):
+                return x + y if a0["op"] == "+" else x - y
+        return None
+
+    def _bind_params(self, params, args):
+        """bindings for inlining a stream helper or a local lambda: expression parameters -> child paths, integer
+        parameters -> values, string parameters -> literals, `old` passed on; None if an argument is something else"""
+        binds, ints, strs, vals = {}, {}, {}, {}
+        for p_, a in zip(params, args):
+            t = p_.get("t") or ""
+            if "ostream" in t:
+                continue
+            a0 = a
+            while isinstance(a0, dict) and a0.get("k") in ("cast", "paren"):
+                a0 = a0["e"]
+            if "expression_t" in t:
+                pth = self.node_path(a0)
+                if pth is None:
+                    return None
+                binds[p_["name"]] = pth
+                continue
+            if a0.get("k") == "ref" and a0.get("name") == "old":
+                continue
+            if a0.get("k") == "bool":
+                ints[p_["name"]] = bool(a0["v"])
+                continue
+            lt = self.lit(a0) if ("char" in t or "string" in t) else None
+            if lt is not None:
+                strs[p_["name"]] = lt
+                continue
+            if a0.get("k") == "ref" and a0.get("dk") == "enumerator":
+                strs[p_["name"]] = ("enumerator", a0["name"])
+                continue
+            iv = self._int_value(a0)
+            if iv is not None:
+                ints[p_["name"]] = iv
+                continue
+            v = self._value_item(a0)
+            if v is not None:
+                vals[p_["name"]] = v
+                continue
+            return None
+        return binds, ints, strs, vals
+
+    def _run_inlined(self, body, bound, out):
+        binds, ints, strs, vals = bound
+        saved = (getattr(self, "env", None), self.locals, getattr(self, "strs", None))
+        self.env = dict(saved[0] or {})
+        self.env.update(binds)
+        self.locals = dict(saved[1])
+        self.locals.update(ints)
+        self.strs = dict(saved[2] or {})
+        self.strs.update(strs)
+        self._inline_depth = getattr(self, "_inline_depth", 0) + 1
+        try:
+            for st in (body.get("s", []) if body.get("k") == "block" else [body]):
+                if st.get("k") == "return":
+                    if st.get("e") is not None:
+                        self.expr(st["e"], out)
+                    break
+                if self.stmt(st, out):
+                    break
+        finally:
+            self.env, self.locals, self.strs = saved
+            self._inline_depth -= 1
+
     def _inline_print_helper(self, e, out):
-        """`helper(<stream>, <child or value>..)` for a helper of this file that writes to the stream: the stream argument
-        is laid out first, then the helper's body with its parameters bound to the children they stand for"""
+        """`helper(<stream>, <child / count / text>..)` for a helper of this file that writes to the stream, or a call
+        of a lambda defined in print: the stream argument is laid out first, then the body with its parameters bound"""
+        if getattr(self, "_inline_depth", 0) > 4:
+            return False
+        if e.get("ck") == "op" and e.get("op") == "()":
+            r = e.get("recv")
+            while isinstance(r, dict) and r.get("k") in ("cast", "paren"):
+                r = r["e"]
+            lam = self._local_lambdas().get(r.get("name")) if isinstance(r, dict) and r.get("k") == "ref" else None
+            if lam is None:
+                return False
+            bound = self._bind_params(lam.get("params", []), e.get("args", []))
+            if bound is None or lam.get("body") is None:
+                return False
+            self._run_inlined(lam["body"], bound, out)
+            return True
         if e.get("ck") not in ("free", "static", "member") or not e.get("fn"):
             return False
         if e.get("ck") == "member" and self._base_path(e.get("recv")) != ():
@@ -660,43 +948,62 @@ class PrintReader:
         if not cands or not e.get("args") or "ostream" not in (cands[0]["params"][0].get("t") or ""):
             return False
         fn = cands[0]
-        if getattr(self, "_inline_depth", 0) > 4:
-            return False
-        binds, vals = {}, {}
-        for p_, a in zip(fn["params"][1:], e["args"][1:]):
-            pth = self.node_path(a) if a.get("k") != "ref" or a.get("name") in (getattr(self, "env", None) or {}) else \
-                self.node_path(a)
-            if pth is not None and "expression_t" in (p_.get("t") or ""):
-                binds[p_["name"]] = pth
-                continue
-            v = self._value_item(a)
-            if v is not None:
-                vals[p_["name"]] = v
-                continue
-            if a.get("k") == "ref" and a.get("name") == "old":
-                continue
+        bound = self._bind_params(fn["params"][1:], e["args"][1:])
+        if bound is None:
             return False
         self.expr(e["args"][0], out)
-        if vals and not binds:
-            for v in vals.values():
+        if bound[3] and not bound[0]:
+            for v in bound[3].values():
                 out.append(v)              # a value printer (print_double): the body formats the number
             return True
-        saved_env, saved_locals = getattr(self, "env", None), self.locals
-        self.env = dict(saved_env or {})
-        self.env.update(binds)
-        self.locals = dict(saved_locals)
-        self._inline_depth = getattr(self, "_inline_depth", 0) + 1
+        self._run_inlined(fn["body"], bound, out)
+        return True
+
+    def _local_lambdas(self):
+        if not hasattr(self, "_lambdas"):
+            self._lambdas = {}
+            for d in walk(self.fn["body"]):
+                if d.get("k") == "decl":
+                    for v in d.get("vars", []):
+                        i = v.get("init")
+                        while isinstance(i, dict) and i.get("k") in ("cast", "paren", "construct") and (i.get("e") or i.get("args")):
+                            i = i.get("e") if i.get("k") != "construct" else i["args"][0]
+                        if isinstance(i, dict) and i.get("k") == "lambda":
+                            self._lambdas[v.get("name")] = i
+        return self._lambdas
+
+    def _unroll(self, n, out):
+        """`for (T i = a; i < b; ++i) body` with known integer bounds: the body once per value of i"""
+        init, cond, body = n.get("init"), n.get("c"), n.get("body")
+        if not (isinstance(init, dict) and init.get("k") == "decl" and len(init.get("vars", [])) == 1 and isinstance(cond, dict)):
+            return False
+        v = init["vars"][0]
+        lo = self._int_value(v["init"]) if v.get("init") is not None else None
+        c = cond
+        while c.get("k") in ("cast", "paren"):
+            c = c["e"]
+        if not (c.get("k") == "bin" and c.get("op") in ("<", "<=", "!=")):
+            return False
+        l0 = c["lhs"]
+        while l0.get("k") in ("cast", "paren"):
+            l0 = l0["e"]
+        hi = self._int_value(c["rhs"])
+        if not (l0.get("k") == "ref" and l0.get("name") == v.get("name")) or not isinstance(lo, int) or \
+                isinstance(lo, bool) or not isinstance(hi, int) or isinstance(hi, bool):
+            return False
+        if c["op"] == "<=":
+            hi += 1
+        if hi - lo > 8:
+            return False
+        saved = self.locals
         try:
-            for st in fn["body"].get("s", []):
-                if st.get("k") == "return":
-                    if st.get("e") is not None:
-                        self.expr(st["e"], out)
-                    break
-                if self.stmt(st, out):
+            for i in range(lo, hi):
+                self.locals = dict(saved)
+                self.locals[v["name"]] = i
+                if self.stmt(body, out):
                     break
         finally:
-            self.env, self.locals = saved_env, saved_locals
-            self._inline_depth -= 1
+            self.locals = saved
         return True
 
     def expr(self, e, out):
@@ -750,7 +1057,7 @@ class PrintReader:
                     raise _Opaque("print of %s" % short(e["recv"])[:40])
                 out.append(("child", i, "raw"))
                 return
-            if getattr(self, "decisions", None) is not None and self._inline_print_helper(e, out):
+            if self._inline_print_helper(e, out):
                 return
             if name == "print_bound_type":
                 raise _Opaque("print_bound_type")
@@ -1353,16 +1660,22 @@ def run_roles(chk, F, rid="R-PRROLES"):
     from ..inline import KindSlicer
     from . import gates as G
     chk.rule(rid, "for every kind whose children TypeChecker::checkExpression checks one by one with role-named helpers "
-                  "(checkNrOfRuns, checkBoundTypeOrBoundedExpr, checkBound, checkPredicate, checkProbBound, ...): each "
-                  "role-revealing access of expression_t::print to child j (print_bound_type, get_double_value, "
-                  "comparison of get_value() with BOX/DIAMOND, get_value() choosing max/min) hits the child with that "
-                  "role, and every checked child except the number of runs and the until condition is printed")
+                  "(checkNrOfRuns, checkBoundTypeOrBoundedExpr, checkBound, checkPredicate, checkProbBound, ...): where the "
+                  "paths of expression_t::print reveal the role of child j (written before `<=` unless a constant whose "
+                  "value 0 writes `#`; written after `;` depending on its value; written as a double; compared with "
+                  "BOX/DIAMOND; choosing min:/max:) it is the role the type checker checks, and every checked child "
+                  "is written, or decides what is written, on some path")
     ce = F.fn("UTAP::TypeChecker::checkExpression")
     ename = ce["params"][0]["name"]
     pr = F.fn("UTAP::expression_t::print")
     kinds = [v["name"] for v in F.enum("UTAP::Constants::kind_t")["values"]]
     ts = KindSlicer(F, ce, subject=ename, stop=("checkExpression",), expand_helpers=False)
-    ps = KindSlicer(F, pr, subject="this", stop=("print",), expand_helpers=False)
+    PR = PrintReader(F)
+    path_quant = {}
+    for nm_ in ("BOX", "DIAMOND"):
+        v_ = F.enum_value("UTAP::Constants::kind_t", nm_)
+        if v_ is not None:
+            path_quant[int(v_)] = nm_
     # kinds mentioned as case labels in both functions
     labels = set()
     for n in walk(ce["body"]):
@@ -1381,71 +1694,68 @@ def run_roles(chk, F, rid="R-PRROLES"):
                     roles[int(p[1][1:-1])] = nm[len("check"):]
         if len(roles) < 3:
             continue
+        paths = PR.layouts(K)
+        good = [(d, l) for d, l in (paths or []) if all(it[0] in ("tok", "child", "value", "name") for it in l.items)]
+        if any(l.varargs for _, l in good):
+            chk.note("%s: print(%s) has a loop the reader does not unroll - which children it writes is not decided" % (rid, K))
+            continue
+        if not good:
+            chk.note("%s: no path of print(%s) is a sequence of text, children and values - roles not decided" % (rid, K))
+            continue
         n_kinds += 1
-        body = ps.slice(K)
-        uses = []           # (child index, required role, how)
-
-        def child(e):
-            while isinstance(e, dict) and (e.get("k") == "cast" or (e.get("k") == "construct" and len(e.get("args", [])) == 1)):
-                e = e["e"] if e.get("k") == "cast" else e["args"][0]
-            if isinstance(e, dict) and e.get("k") == "call" and e.get("name") == "get" and e.get("args") and \
-                    e["args"][0].get("k") == "int" and (e.get("recv") is None or e["recv"].get("k") == "this"):
-                return e["args"][0]["v"]
-            return None
+        uses = {}           # (child index, required role) -> how print reveals it
         printed = set()
-        for x in walk(body):
-            if x.get("k") != "call":
-                if x.get("k") == "cond":
-                    # (get(j).get_value() ? "max: " : "min: ")
-                    txt = short(x.get("a")) + short(x.get("b"))
-                    for c in calls(x.get("c"), "get_value"):
-                        j = child(c.get("recv"))
-                        if j is not None and "max" in txt and "min" in txt:
-                            uses.append((j, "AggregationOp", "get(%d).get_value() ? max : min" % j))
-                if x.get("k") == "bin" and x.get("op") in ("==", "!="):
-                    for a, b in ((x["lhs"], x["rhs"]), (x["rhs"], x["lhs"])):
-                        while isinstance(a, dict) and a.get("k") == "cast":
-                            a = a["e"]
-                        while isinstance(b, dict) and b.get("k") == "cast":
-                            b = b["e"]
-                        if isinstance(a, dict) and a.get("k") == "call" and a.get("name") == "get_value" and \
-                                child(a.get("recv")) is not None and isinstance(b, dict) and b.get("dk") == "enumerator" and \
-                                b.get("name") in ("BOX", "DIAMOND"):
-                            uses.append((child(a["recv"]), "PathQuant", "get(%d).get_value() == %s" % (child(a["recv"]), b["name"])))
-                continue
-            nm = x.get("name")
-            if nm in PRINT_ROLE_OF_HELPER:
-                for a in x.get("args", []):
-                    j = child(a)
-                    if j is not None:
-                        uses.append((j, PRINT_ROLE_OF_HELPER[nm], "%s(get(%d))" % (nm, j)))
+
+        def idx(pth):
+            return pth[0] if isinstance(pth, tuple) else pth
+        for d, l in good:
+            items = l.items
+            for i, it in enumerate(items):
+                if it[0] == "child":
+                    j = idx(it[1])
+                    printed.add(j)
+                    nxt = next((x for x in items[i + 1:i + 2] if x[0] == "tok"), None)
+                    prv = next((x for x in items[max(0, i - 1):i] if x[0] == "tok"), None)
+                    if nxt is not None and nxt[1].lstrip().startswith("<=") and ("kind", (j,), "CONSTANT") in d:
+                        uses[(j, "BoundTypeOrBoundedExpr")] = "child %d is written in front of `<=` unless it is a constant" % j
+                    if prv is not None and prv[1].rstrip().endswith(";") and any(a[0] == "value" and a[1] == (j,) for a in d):
+                        uses[(j, "NrOfRuns")] = "child %d is written after `;` depending on its value" % j
+                if it[0] == "value":
+                    j = idx(it[1])
+                    printed.add(j)
+                    if it[2] == "double":
+                        uses[(j, "ProbBound")] = "child %d is written as a floating point value" % j
+            toks = "".join(it[1] for it in items if it[0] == "tok")
+            for atom, truth in d.items():
+                if atom[0] in ("value", "kind", "is_true", "typeis") and isinstance(atom[1], tuple) and len(atom[1]) == 1:
+                    j = atom[1][0]
+                    if atom[0] == "value" and atom[2] == "==" and atom[3] in path_quant:
                         printed.add(j)
-            if x.get("ck") in ("free", "static") and "ostream" in " ".join((x.get("cpt") or x.get("pt") or [])[:1]):
-                # embrace(os, old, get(j), ..) and other stream helpers of the file: they write the child they are given
-                for a in x.get("args", [])[1:]:
-                    j = child(a)
-                    if j is not None:
+                        uses[(j, "PathQuant")] = "the value of child %d is compared with %s" % (j, path_quant[atom[3]])
+                    if atom[0] == "value" and atom[2] == "==" and atom[3] == 0 and ("#" in toks) == truth and \
+                            ("kind", (j,), "CONSTANT") in d:
                         printed.add(j)
-            if nm == "get_double_value" and child(x.get("recv")) is not None:
-                j = child(x["recv"])
-                uses.append((j, "ProbBound", "get(%d).get_double_value()" % j))
-                printed.add(j)
-            if nm == "print" and child(x.get("recv")) is not None:
-                printed.add(child(x["recv"]))
-            if nm in ("get_value", "get_string_value") and child(x.get("recv")) is not None:
-                printed.add(child(x["recv"]))
-        for j, need, how in uses:
-            chk.ob(rid, "%s|%s" % (K, how.replace(" ", "")), roles.get(j) == need,
-                   "expression_t::print(%s) reads child %d as the %s (`%s`), but TypeChecker::checkExpression checks "
+                        uses[(j, "BoundTypeOrBoundedExpr")] = "child %d being the constant 0 writes `#`" % j
+                    if atom[0] == "value" and atom[2] == "==" and atom[3] == 0 and ("min:" in toks or "max:" in toks):
+                        other = [t_ for d2, l2 in good if d2.get(atom) == (not truth) and
+                                 all(d2.get(k_) == v_ for k_, v_ in d.items() if k_ != atom)
+                                 for t_ in ["".join(x[1] for x in l2.items if x[0] == "tok")]]
+                        if other and ("min:" in toks) != ("min:" in other[0]):
+                            printed.add(j)
+                            uses[(j, "AggregationOp")] = "the value of child %d chooses between min: and max:" % j
+        for (j, need), how in sorted(uses.items()):
+            chk.ob(rid, "%s|child%d-as-%s" % (K, j, need), roles.get(j) == need,
+                   "expression_t::print(%s) treats child %d as the %s (%s), but TypeChecker::checkExpression checks "
                    "child %d as %s (layout %s): the printed query differs from the parsed one, or std::get throws on "
                    "the wrong alternative" % (K, j, need, how, j, roles.get(j, "nothing"),
                                               ", ".join("%d=%s" % kv for kv in sorted(roles.items()))),
-                   "%s:%s" % (pr["file"], pr["line"]), sample="%s: %s is the %s" % (K, how, need))
+                   "%s:%s" % (pr["file"], pr["line"]), sample="%s: %s" % (K, how))
         for j, role in sorted(roles.items()):
-            if role in ("NrOfRuns", "UntilCond"):
-                continue
+            if role == "UntilCond":
+                continue        # written only in the `p U q` form, which R-PRQUERY decides path by path
             chk.ob(rid, "%s|child%d-printed" % (K, j), j in printed,
-                   "expression_t::print(%s) never prints child %d (the %s)" % (K, j, role),
+                   "expression_t::print(%s) never writes child %d (the %s) on any path, nor lets it decide what is "
+                   "written: the printed query has lost it" % (K, j, role),
                    "%s:%s" % (pr["file"], pr["line"]))
     if n_kinds < 4:
         raise AnalysisBroken("only %d kinds with role-named per-child checks found in checkExpression" % n_kinds)
@@ -1639,4 +1949,43 @@ def run_altsyntax(chk, F, rid="R-PRALTSYN"):
                "%s:%s" % (pr["file"], pr["line"]))
     if n < 1:
         raise AnalysisBroken("%s: no kind with a type-guarded second syntax found (expected ARRAY under PROCESS_SET)" % rid)
-    chk.analysed[rid] = {"builder_functions": n_fns, "guarded_constructions": len(set(guarded)), "instances": n}
+    # exactness for the process-set lookup: the builder makes a chain of ARRAY nodes directly over the identifier of the
+    # process set, and only that is read from the call syntax.  The printer's choice between `P(a, b)` and `x[a]` is
+    # read off its layout for small trees (P = an identifier naming a process set, x = a plain variable).
+    n_trees = 0
+    if any(K == "ARRAY" and Tk == "PROCESS_SET" for K, Tk, _, _ in guarded):
+        PR = PrintReader(F)
+
+        def idn(nm):
+            return ("IDENTIFIER", [], nm)
+
+        def arr(x, y):
+            return ("ARRAY", [x, y], None)
+        P = PR.PROCESS_SET_LEAF
+        dot = ("DOT", [arr(idn(P), idn("a"))], None)
+        trees = (("P(a)", arr(idn(P), idn("a")), True),
+                 ("P(a, b)", arr(arr(idn(P), idn("a")), idn("b")), True),
+                 ("x[a]", arr(idn("x"), idn("a")), False),
+                 ("x[a][b]", arr(arr(idn("x"), idn("a")), idn("b")), False),
+                 ("P(a).f[b]", arr(dot, idn("b")), False),
+                 ("(c ? x : y)[a]", arr(("INLINE_IF", [idn("c"), idn(P), idn("y")], None), idn("a")), False))
+        for text, t, want in trees:
+            ly = PR.layout("ARRAY", t)
+            toks = "".join(it[1] for it in ly.items if it[0] == "tok") if ly is not None else ""
+            opaque = ly is None or any(it[0] == "atom" for it in ly.items)
+            if opaque:
+                chk.note("%s: the layout of ARRAY for the tree of `%s` is not readable (%s) - not decided" %
+                         (rid, text, [it for it in (ly.items if ly else []) if it[0] == "atom"][:1]))
+                continue
+            n_trees += 1
+            call_syntax = "[" not in toks and "(" in toks
+            chk.ob(rid, "ARRAY|lookup-syntax|%s" % text, call_syntax == want,
+                   "expression_t::print writes the tree of `%s` in %s syntax: %s" %
+                   (text, "call" if call_syntax else "index",
+                    "only a chain of ARRAY nodes directly over the name of a process set is a lookup - this one is an "
+                    "index into an array, and `..(b)` on it is a call of something that is neither a function nor a "
+                    "process set" if call_syntax else
+                    "the parser builds this tree from the call syntax only; `P[a]` on a process set is rejected"),
+                   "%s:%s" % (pr["file"], pr["line"]))
+    chk.analysed[rid] = {"builder_functions": n_fns, "guarded_constructions": len(set(guarded)), "instances": n,
+                         "lookup_trees": n_trees}
